@@ -363,6 +363,21 @@ def rule_raw_handles(rep, prog):
             if re.search(rx, key):
                 why = reason
                 break
+        if why is None:
+            # a pure forwarder of an exempt handle: an impl of the same trait method for a wrapper type (`impl GuestMemory for Arc<M>`)
+            # whose only return is the inner object's method of the same name, called with this function's own arguments
+            b = prog.by_id.get(path)
+            if b is not None and b.impl_trait:
+                rts = b.return_terms()
+                if len(rts) == 1:
+                    t = deep_strip(rts[0][1])
+                    if t[0] == 'call' and canon(t[1]).split("::")[-1] == b.name and strip_generics(canon(t[1])).split("::")[-2:-1] == b.impl_trait.split("::")[-1:] \
+                            and all(deep_strip(a)[:2] == ('param', i + 2) for i, a in enumerate(t[2][1:])):
+                        inner_key = strip_generics(canon(t[1]))
+                        for rx, reason in EXEMPT.items():
+                            if re.search(rx, b.impl_trait + "::" + b.name) or re.search(rx, inner_key):
+                                why = f"forwards to {inner_key} with its own arguments ({reason})"
+                                break
         rep("R5.4.raw_handle", key, why is not None, "", f"returns `{s}`" + (f" — exempt: {why}" if why else
             " — a writable raw handle into (possibly) guest memory that is not on the documented exemption list: writes through it bypass dirty tracking"))
     return n
